@@ -25,6 +25,11 @@ import collections
 import queue as _queue
 
 REPO = os.environ.get('VERIF_REPO', '/repo')
+# pcbasic.config creates its user config/state directories on first use: keep them on tmpfs,
+# away from the real home directory (read once, when pcbasic.compat is first imported)
+_HOME = '/dev/shm/pcbverif-home-%d' % os.getuid() if os.path.isdir('/dev/shm') else '/tmp/pcbverif-home-%d' % os.getuid()
+os.environ.setdefault('XDG_CONFIG_HOME', os.path.join(_HOME, 'config'))
+os.environ.setdefault('XDG_DATA_HOME', os.path.join(_HOME, 'data'))
 if REPO not in sys.path:
     sys.path.insert(0, REPO)
 
